@@ -150,13 +150,14 @@ impl GenericsAnalyzer {
             }
         };
 
-        self.extract_deps_from_type(input_sig, pat_type.ty.as_ref())
+        self.extract_deps_from_type(input_sig, pat_type.ty.as_ref(), false)
     }
 
     fn extract_deps_from_type(
         &mut self,
         input_sig: InputSig<'_>,
         ty: &syn::Type,
+        inside_reference: bool,
     ) -> syn::Result<FnDeps> {
         match ty {
             syn::Type::ImplTrait(type_impl_trait) => {
@@ -197,10 +198,14 @@ impl GenericsAnalyzer {
                     ),
                 }
             }
-            syn::Type::Reference(type_reference) => {
-                self.extract_deps_from_type(input_sig, type_reference.elem.as_ref())
+            // Only the outermost reference is the dependency receiver (`&self`),
+            // a reference below that is the concrete dependency type itself (`deps: &&'static str`):
+            syn::Type::Reference(type_reference) if !inside_reference => {
+                self.extract_deps_from_type(input_sig, type_reference.elem.as_ref(), true)
             }
-            syn::Type::Paren(paren) => self.extract_deps_from_type(input_sig, paren.elem.as_ref()),
+            syn::Type::Paren(paren) => {
+                self.extract_deps_from_type(input_sig, paren.elem.as_ref(), inside_reference)
+            }
             ty => {
                 self.deps_with_generics(FnDeps::Concrete(Box::new(ty.clone())), &input_sig.generics)
             }
